@@ -186,6 +186,22 @@ def gen_case(seed, tier='quick'):
             if o.get('fault') is None:
                 o.pop('fault', None)
             o['still'] = True       # the clock does not move for these ops
+    if compiled and world['names'] and not world.get('xlsx') \
+            and rng.random() < 0.1:
+        # two workbooks with the same names bound differently are restored,
+        # one after the other, into the same long-lived Model object
+        pa = dict(persist(), path='/simfs/first.json')
+        pb = dict(persist(), path='/simfs/second.gz')
+        for o in (pa, pb):
+            o.pop('fault', None)
+        ops += [pa, dict(restore(pa['path']), reuse=True, adopt=False,
+                         build_code=True),
+                {'op': 'sibling'}, pb,
+                dict(restore(pb['path']), reuse=True, adopt=False,
+                     build_code=rng.random() < 0.7)]
+        for o in ops:
+            if o.get('fault') is None:
+                o.pop('fault', None)
     n = rng.choice([2, 3, 4, 6, 8, 12, 16])
     gens = 0
     while len(ops) < n:
